@@ -1,10 +1,11 @@
 ------------------------------ MODULE TracePM ------------------------------
-EXTENDS PollManagerObs, Json, TLC, Sequences
+EXTENDS PollManagerObs, Json, TLC, Sequences, FiniteSets
 Trace == ndJsonDeserialize("trace.ndjson")
 VARIABLES l, viol, pe
 tvars == <<l, viol, pe>>
 TraceInit == l = 1 /\ viol = {} /\ pe = <<0, 0, 0>> /\ TLCSet(1, <<0, {}>>)
-Judge(ev, V) == viol' = viol \cup {<<ev.t, l, r>> : r \in V}
+\* (bounded: a build in which almost every event breaks a rule would otherwise make every state carry an ever larger set)
+Judge(ev, V) == viol' = IF Cardinality(viol) < 400 THEN viol \cup {<<ev.t, l, r>> : r \in V} ELSE viol
 ToInt(s) == CASE s = "0" -> 0 [] s = "1" -> 1 [] s = "" -> 0 [] OTHER -> 2
 Step(ev) ==
     CASE ev.e = "PickRet" -> Judge(ev, PickViol(ev.m)) /\ UNCHANGED pe
